@@ -23,7 +23,7 @@ PROBES = ('nonexportable_direct', 'same_second_pair_on_component', 'subsecond_pa
           'trust_packets', 'coalesced_blob', 'copy_compared', 'fixed_point_checked', 'twin_held', 'twin_collected', 'protected_export',
           'uattr', 'revoker', 'hop_private', 'hop_public')
 WEIGHTS = {'direct_other': 1.2, 'tick': 2.0, 'export_import': 2.5, 'certify_other': 2.0, 'recertify': 1.5, 'copy_key': 0.8, 'add_uid': 1.2, 'protect': 0.3,
-           'derive_pub': 0.3, 'drop_pub': 0.2}
+           'derive_pub': 0.3, 'drop_pub': 0.2, 'revoke_subkey_by_other': 0.6}
 
 
 def generate(rng, tier):
